@@ -49,6 +49,9 @@ func (r *stepReader) Read(p []byte) (int, error) {
 	}
 	select {
 	case b := <-r.data:
+		if b == nil {
+			return 0, io.EOF // the stream ends here
+		}
 		return copy(p, b), nil
 	case <-r.ctx.Done():
 		return 0, r.ctx.Err()
@@ -168,14 +171,34 @@ func runDispatch(b *dpBeh) (problems []string) {
 			if op.Typ != "" {
 				sb.WriteString("event: " + dpType(op.Typ) + "\n")
 			}
-			sb.WriteString("data: " + strconv.Itoa(k) + "\n\n")
+			sb.WriteString("data: " + strconv.Itoa(k) + "\n")
+			if op.Kind != "atend" {
+				sb.WriteString("\n")
+			}
 			select {
 			case rd.data <- []byte(sb.String()):
 			case <-time.After(10 * time.Second):
 				problems = append(problems, "the connection does not read")
 				return
 			}
-			if op.Kind == "stop" {
+			if op.Kind == "atend" {
+				// no blank line: the stream ends after the event's last line, the pending event is dispatched at the end of input
+				if !wait("event " + strconv.Itoa(k)) {
+					return
+				}
+				select {
+				case rd.data <- nil:
+				case <-time.After(10 * time.Second):
+					problems = append(problems, "the connection does not read")
+					return
+				}
+				select {
+				case <-connDone:
+				case <-time.After(10 * time.Second):
+					problems = append(problems, "Connect did not return within 10 s of the end of the stream")
+					return
+				}
+			} else if op.Kind == "stop" {
 				// the context is cancelled from inside a callback: Connect returns once the dispatch is over (or reads once more first)
 				select {
 				case <-rd.req:
